@@ -272,3 +272,56 @@ Proof.
   - destruct (Nat.leb_spec 92 (length bs)); [lia|]. apply parse_bits_short; lia.
 Qed.
 
+
+(* ---------- type 5 ---------- *)
+Theorem msg_type5 c q bs : sl bs 0 6 = 5 -> msg_fixed c q 302 StaticAndVoyageRelatedData static_voyage_of bs.
+Proof.
+  intros Ht. unfold msg_fixed.
+  destruct (Nat.leb_spec 6 (length bs)) as [H6|H6].
+  - pose proof (layout_static_voyage c bs) as Hl.
+    destruct (302 <=? length bs)%nat; dispatch_to Ht; unfold run_variant, run_bits.
+    + destruct Hl as (e & -> & _). reflexivity.
+    + rewrite Hl. reflexivity.
+  - destruct (Nat.leb_spec 302 (length bs)); [lia|]. apply parse_bits_short; lia.
+Qed.
+
+(* ---------- type 24: part A needs 160 bits, part B 168, parts 2 and 3 only the 40-bit head ---------- *)
+Definition static_data_min (bs : list bool) : nat :=
+  if sl bs 38 2 =? 0 then 160%nat else if sl bs 38 2 =? 1 then 168%nat else 40%nat.
+
+Theorem msg_type24 c q bs : sl bs 0 6 = 24 -> (40 <= length bs)%nat ->
+  if (static_data_min bs <=? length bs)%nat
+  then parse_bits c q bs = Ok (StaticDataReport (static_data_of bs))
+  else parse_bits c q bs = Err ENmea.
+Proof.
+  intros Ht H40. pose proof (layout_static_data c bs) as Hl.
+  destruct (Nat.leb_spec 40 (length bs)); [|lia]. unfold static_data_min.
+  destruct (sl bs 38 2 =? 0).
+  - destruct (160 <=? length bs)%nat; dispatch_to Ht; unfold run_variant, run_bits; rewrite Hl; reflexivity.
+  - destruct (sl bs 38 2 =? 1).
+    + destruct (168 <=? length bs)%nat; dispatch_to Ht; unfold run_variant, run_bits; rewrite Hl; reflexivity.
+    + destruct (Nat.leb_spec 40 (length bs)); [|lia]. dispatch_to Ht; unfold run_variant, run_bits; rewrite Hl; reflexivity.
+Qed.
+
+Theorem msg_type24_short c q bs : sl bs 0 6 = 24 -> (length bs < 40)%nat -> parse_bits c q bs = Err ENmea.
+Proof.
+  intros Ht Hs. destruct (Nat.leb_spec 6 (length bs)) as [H6|H6]; [|apply parse_bits_short; lia].
+  pose proof (layout_static_data c bs) as Hl. destruct (Nat.leb_spec 40 (length bs)); [lia|].
+  dispatch_to Ht; unfold run_variant, run_bits; rewrite Hl; reflexivity.
+Qed.
+
+(* ---------- type 15: the three legal forms and the mandatory part ---------- *)
+Theorem msg_type15_88 c q bs : sl bs 0 6 = 15 -> length bs = 88%nat ->
+  parse_bits c q bs = Ok (Interrogation (interrogation_88 bs)).
+Proof. intros Ht Hl. dispatch_to Ht. unfold run_variant, run_bits. rewrite (layout_interrogation_88 c bs Hl). reflexivity. Qed.
+Theorem msg_type15_110 c q bs : sl bs 0 6 = 15 -> length bs = 112%nat ->
+  parse_bits c q bs = Ok (Interrogation (interrogation_110 bs)).
+Proof. intros Ht Hl. dispatch_to Ht. unfold run_variant, run_bits. rewrite (layout_interrogation_110 c bs Hl). reflexivity. Qed.
+Theorem msg_type15_160 c q bs : sl bs 0 6 = 15 -> length bs = 160%nat ->
+  parse_bits c q bs = Ok (Interrogation (interrogation_160 bs)).
+Proof. intros Ht Hl. dispatch_to Ht. unfold run_variant, run_bits. rewrite (layout_interrogation_160 c bs Hl). reflexivity. Qed.
+Theorem msg_type15_short c q bs : sl bs 0 6 = 15 -> (length bs < 76)%nat -> parse_bits c q bs = Err ENmea.
+Proof.
+  intros Ht Hs. destruct (Nat.leb_spec 6 (length bs)) as [H6|H6]; [|apply parse_bits_short; lia].
+  dispatch_to Ht. unfold run_variant, run_bits. rewrite (layout_interrogation_short c bs Hs). reflexivity.
+Qed.
